@@ -52,25 +52,26 @@ type Decision struct {
 
 // APICall is one entry of the API log.
 type APICall struct {
-	Seq     int
-	Actor   string
-	Inc     int
-	RecID   int
-	Verb    string // create update delete patch get list watch
-	Sub     string
-	Kind    Kind
-	NS      string
-	Name    string
-	In      Obj
-	Patch   []byte
-	DelOpts *metav1.DeleteOptions
-	ListSel string
-	Fault   string
-	Pre     Obj // stored object just before the call was executed (nil if absent)
-	Out     Obj
-	OutList []Obj
-	Err     error
-	Applied bool // the store executed the verb and reported success
+	Seq           int
+	Actor         string
+	Inc           int
+	RecID         int
+	Verb          string // create update delete patch get list watch
+	Sub           string
+	Kind          Kind
+	NS            string
+	Name          string
+	In            Obj
+	Patch         []byte
+	DelOpts       *metav1.DeleteOptions
+	ListSel       string
+	Fault         string
+	Pre           Obj // stored object just before the call was executed (nil if absent)
+	Out           Obj
+	OutList       []Obj
+	Err           error
+	Applied       bool     // the store executed the verb and reported success
+	MissingClaims []string // pod create: claims of its volumes absent from the store when the create was applied
 }
 
 func (c *APICall) IsWrite() bool {
@@ -128,6 +129,15 @@ func exec[T any](s *Sim, c *APICall, do func() (T, error)) (T, error) {
 	if c.Name != "" {
 		if o, ok := s.Store.tables[c.Kind][key(c.NS, c.Name)]; ok {
 			c.Pre = cp(o)
+		}
+	}
+	if c.Kind == KPod && c.Verb == "create" {
+		for _, v := range c.In.(*v1.Pod).Spec.Volumes {
+			if v.PersistentVolumeClaim != nil {
+				if _, ok := s.Store.tables[KPVC][key(c.NS, v.PersistentVolumeClaim.ClaimName)]; !ok {
+					c.MissingClaims = append(c.MissingClaims, v.PersistentVolumeClaim.ClaimName)
+				}
+			}
 		}
 	}
 	res, err := do()
